@@ -5,7 +5,7 @@ import itertools
 
 from ..core import Prop, Violation
 from .. import cffl
-from ..cffl import GATES, VERDICTS, Ob, cfg_line
+from ..cffl import GATES, VERDICTS, Ob, cfg_line, BUDGETS, BIG_ADVANCES, DAY, real_prompt
 from ..extract import e2
 
 TTL = 300_000_000
@@ -24,6 +24,8 @@ def outcome_class(gate, z, y, o: Ob):
     'succ'  : came back not-blocked
     'open'  : (anything else: unknown / mismatching verdicts, FAILURE together with a BLOCK, MAJORITY) the text
               does not say; whether it counted is read off the failure counter."""
+    if z is None:
+        return "open"          # no agent consulted although the request was let in: judged by `admitted_request_consults_agents`
     if z == "exc" or y == "exc":
         return "fail"
     if not o.blocked:
@@ -42,7 +44,7 @@ class C08(Prop):
     quick_budget = 2500
     thorough_budget = 60000
     extractors = ["E2"]
-    all_branches = (["k:circuit_open", "k:cache_hit", "k:agent_exc", "k:gated_success", "k:gated_neither",
+    all_branches = (["energy:refused", "k:circuit_open", "k:cache_hit", "k:agent_exc", "k:gated_success", "k:gated_neither",
                      "k:gated_failure", "k:raised", "tr:closed>open", "tr:open>half_open", "tr:half_open>closed",
                      "tr:half_open>open", "tr:open>closed:reset", "tr:half_open>closed:reset"]
                     + [f"act:{a}" for a in ("SUCCESS", "BLOCKED", "FAILURE", "SKIPPED", "ERROR")])
@@ -64,9 +66,9 @@ class C08(Prop):
         return e2.extract()
 
     # --- generation --------------------------------------------------------------------------------------
-    def _history(self, events, thr, tmo=TMO, gate="and", breaker=True, cache=True, note=""):
+    def _history(self, events, thr, tmo=TMO, gate="and", breaker=True, cache=True, note="", budget=None):
         """events: outcome names, 'hit', ('adv', us), 'reset', 'clear'"""
-        lines = [cfg_line(gate, breaker, thr, tmo, cache, TTL)]
+        lines = [cfg_line(gate, breaker, thr, tmo, cache, TTL, budget)]
         fresh = 100
         good = []          # prompts that got a cacheable reply
         for ev in events:
@@ -99,8 +101,16 @@ class C08(Prop):
         if rng.random() < 0.5:
             ev.append("succ")                       # something to hit in the cache later
         ev += [rng.choice(fail) for _ in range(thr)]
+        if rng.random() < 0.25:
+            # the first request after trip + timeout is a cache hit of an earlier success (no agent is consulted, so
+            # it is not a probe), then the real probe fails
+            ev = ["succ"] + [rng.choice(fail) for _ in range(thr)]
+            ev += [("adv", rng.choice([tmo, tmo + 1, tmo + DAY, DAY + 10_000_000])), "hit", rng.choice(fail), "succ"]
+            return self._history(ev, thr, tmo, gate, True, True, "cache hit as first request after the timeout")
         for _ in range(rng.choice([1, 2, 3])):
-            if rng.random() < 0.8:
+            if rng.random() < 0.25:
+                ev.append(("adv", rng.choice(BIG_ADVANCES)))
+            elif rng.random() < 0.8:
                 ev.append(("adv", rng.choice([tmo - 1, tmo, tmo, tmo + 1, tmo // 2])))
                 if rng.random() < 0.3:
                     ev.append(("adv", 1))
@@ -109,11 +119,36 @@ class C08(Prop):
                 ev.append(rng.choice(["succ", "block", "hit"] + fail))
         return self._history(ev, thr, tmo, gate, True, rng.random() < 0.8, "probe scenario")
 
+    def _real_case(self, rng):
+        """built-in BioAgent executor / assessor on a budget that runs dry: their FAILURE answers trip the breaker"""
+        thr = rng.choice([1, 2, 3])
+        budget = rng.choice([0, 20, 40, 50, 60, 100, 200])
+        lines = [cfg_line(rng.choice(["and", "and", "unanimous", "or", "executor_priority", "assessor_priority"]), True, thr,
+                          TMO, rng.random() < 0.7, TTL, budget, True)]
+        seen = []
+        for _ in range(rng.choice([4, 6, 8, 10])):
+            u = rng.random()
+            if u < 0.7:
+                if seen and rng.random() < 0.2:
+                    p = rng.choice(seen)
+                else:
+                    p = real_prompt(rng, rng.random() < 0.3)
+                    seen.append(p)
+                lines.append(f"run {p} EXECUTE {'BLOCK' if int(p) < 2100 else 'PERMIT'}")
+            elif u < 0.95:
+                lines.append("adv " + str(rng.choice([TMO - 1, TMO, TMO + 1, DAY + 10_000_000])))
+            else:
+                lines.append("resetcb")
+        return {"lines": lines, "note": "built-in agents"}
+
     def generate(self, rng, tier, n):
         names = ["succ", "block", "skip", "efail", "exc", "yexc", "mismatch", "hit"]
         for i in range(n):
             if i % 3 == 0:
                 yield self._probe_scenario(rng)
+                continue
+            if i % 11 == 5:
+                yield self._real_case(rng)
                 continue
             thr = rng.choice([1, 1, 2, 2, 3, 3, 4, 4, 5, 0, -1])
             tmo = rng.choice([TMO, TMO, TMO, 1_000_000, 1, 0, -1_000_000, 1_500_000])
@@ -130,12 +165,14 @@ class C08(Prop):
                         ev.append(rng.choice(VERDICTS + ["exc", "weird"]) + "/" + rng.choice(VERDICTS + ["exc", "weird"]))
                 elif u < 0.92:
                     t = abs(tmo)
-                    ev.append(("adv", rng.choice([1, max(t - 1, 0), t, t + 1, t // 2, 1_000_000, 59_000_000, 2 * t + 3])))
+                    ev.append(("adv", rng.choice([1, max(t - 1, 0), t, t + 1, t // 2, 1_000_000, 59_000_000, 2 * t + 3]
+                                                 + BIG_ADVANCES[:4])))
                 elif u < 0.97:
                     ev.append("reset")
                 else:
                     ev.append("clear")
-            c = self._history(ev, thr, tmo, gate, breaker, cache, "random")
+            c = self._history(ev, thr, tmo, gate, breaker, cache, "random",
+                              rng.choice(BUDGETS + [500]) if rng.random() < 0.35 else None)
             if rng.random() < 0.02:     # malformed stream: both sides must answer bad-op and carry on
                 c["lines"].insert(rng.randrange(1, len(c["lines"]) + 1), rng.choice(["run 1 EXECUTE", "bogus", "cfg and 1", "adv", "run"]))
             if rng.random() < 0.03:
@@ -150,7 +187,19 @@ class C08(Prop):
             for k in range(1, depth + 1):
                 for seq in itertools.product(alpha, repeat=k):
                     cases.append(self._history(seq, thr, note=f"exhaustive depth {k} thr {thr}"))
-        return [{"name": f"all histories of length <= {depth} over {{success, intentional block, executor failure, "
+        big = []
+        for thr in (1, 2):
+            for adv in BIG_ADVANCES:
+                for probe in ("succ", "efail", "block", "hit", "exc"):
+                    big.append(self._history(["succ"] + ["efail"] * thr + [("adv", adv), probe, "succ"], thr,
+                                             note="trip, very large clock advance, probe"))
+        for thr in (1, 2, 3):
+            for budget in BUDGETS:
+                big.append(self._history(["succ", "succ", "succ", ("adv", TMO), "succ", "block"], thr, budget=budget,
+                                         note="the shared store runs dry: the stubs' FAILURE answers trip the breaker"))
+        return [{"name": "trip, advance by 1 day / 7 days / 400 days (and 1 us or a few seconds around them), probe; "
+                         "9 small budgets x thresholds 1..3", "cases": big},
+                {"name": f"all histories of length <= {depth} over {{success, intentional block, executor failure, "
                          f"agent exception, cache hit, advance timeout-1us, advance 1us, manual reset}} for "
                          f"thresholds 1..3 (AND logic, 60 s timeout)", "cases": cases}]
 
@@ -170,12 +219,13 @@ class C08(Prop):
 
         def V(clause, expected, raw, idx):
             out.append(Violation(clause, expected, raw, idx))
+        actual = extra if extra else [(None, None)] * len(obs)
 
         for idx, (line, raw) in enumerate(zip(case["lines"], obs)):
             t = line.split()
             if raw == "bad-op":
                 continue
-            if t[0] == "cfg" and len(t) == 7:
+            if t[0] == "cfg" and len(t) in (7, 8, 9):
                 gate, enabled, thr, tmo = (t[1] if t[1] in GATES else "and"), t[2] == "1", int(t[3]), int(t[4])
                 now, prev, last_fail_at, since_clear, streak = 0, None, None, 0, 0
                 continue
@@ -195,8 +245,7 @@ class C08(Prop):
             elif t[0] == "clearcache":
                 pass
             elif t[0] == "run" and len(t) == 4:
-                z = "exc" if t[2] == "exc" else cffl.verdict_text(t[2])
-                y = "exc" if t[3] == "exc" else cffl.verdict_text(t[3])
+                z, y = actual[idx]      # the verdicts actually returned on this request (None = not consulted)
                 calls = o.ecalls + o.acalls - p_calls
                 spent = o.spent - p_spent
                 opened_now = p_state == "closed" and o.state != "closed"
@@ -228,9 +277,13 @@ class C08(Prop):
                     prev = o
                     continue
                 if o.raised is not None or o.cached:
-                    # no agent outcome: the text asks nothing except that a cache hit is not a failure
-                    if o.failures > p_fail or opened_now:
-                        V("cache_hit_or_aborted_request_not_a_failure", f"{p_state} {p_fail}", raw, idx)
+                    # no agent was consulted, so this is neither a success nor a failure and in particular not a probe:
+                    # it moves no failure field and cannot close (or open) the breaker; the only state change allowed
+                    # is the admission open -> half_open
+                    ok_states = {p_state, "half_open"} if p_state == "open" else {p_state}
+                    if o.failures != p_fail or o.state not in ok_states or (o.cached and calls):
+                        V("cache_hit_is_neither_success_nor_failure",
+                          f"state in {sorted(ok_states)}, failures={p_fail}, no agent call", raw, idx)
                     streak = 0
                     prev = o
                     continue
